@@ -12,7 +12,7 @@ from fractions import Fraction as F
 import numpy as np
 
 from rv.core import ctx as _ctx
-from rv.core import instrument
+from rv.core import instrument, scribble
 
 ANCHORS = ("audio/io.py", "audio/operations.py", "audio/spectrograms.py", "arrays/dimensions.py")
 THOROUGH_SHARDS = 10
@@ -32,8 +32,24 @@ def tmp():
     return _TMP
 
 
+# lossless containers and encodings, which libsndfile reads with sample-accurate seeking.  Lossy codecs are left out:
+# for MP3 and (seen with 3 channels at 12345 Hz) OGG/Vorbis a seek followed by a read does not return the same
+# samples as the corresponding slice of a whole-file decode, so "the frames of the file at an offset" has no exact
+# reference there (a property of the decoder, not of soundevent)
+CONTAINERS = [("wav", "PCM_16")] * 3 + [("flac", "PCM_16"), ("flac", "PCM_24"), ("wav", "PCM_24"), ("wav", "PCM_32"), ("wav", "FLOAT"),
+                                        ("aiff", "PCM_24"), ("aiff", "PCM_16"), ("w64", "PCM_16"), ("caf", "PCM_16"), ("au", "PCM_16"), ("flac", "PCM_16")]
+
+
+def container_of(seed):
+    return CONTAINERS[seed % len(CONTAINERS)]
+
+
 def make_file(file_sr, channels, n_frames, seed):
-    """Write a PCM_16 WAV whose samples are known integers; returns (path, int array)."""
+    """Write an audio file whose samples are known; returns (path, float reference array of the decoded frames).
+
+    PCM_16 WAV: the reference is the written integers / 32768 (independent of any decoder).  Other containers
+    (chosen by ``seed``): the reference is one whole-file decode, so offsets / lengths / channel order are judged.
+    """
     import soundfile as sf
 
     key = (file_sr, channels, n_frames, seed)
@@ -43,9 +59,26 @@ def make_file(file_sr, channels, n_frames, seed):
     data = r.integers(-32768, 32767, size=(n_frames, channels), dtype=np.int16)
     # make every frame identify itself in channel 0 as far as 16 bits allow
     data[:, 0] = (np.arange(n_frames) % 60000 - 30000).astype(np.int16)
-    path = os.path.join(tmp(), f"f{file_sr}_{channels}_{n_frames}_{seed}.wav")
-    sf.write(path, data, file_sr, subtype="PCM_16")
-    _FILES[key] = (path, data)
+    fmt, sub = container_of(seed)
+    ref = None
+    if (fmt, sub) != ("wav", "PCM_16"):
+        path = os.path.join(tmp(), f"f{file_sr}_{channels}_{n_frames}_{seed}.{fmt}")
+        try:
+            sf.write(path, data, file_sr, subtype=sub, format=fmt.upper())
+            ref, sr_ = sf.read(path, always_2d=True, dtype="float64")
+            if sr_ != file_sr or ref.shape != data.shape:
+                ref = None
+        except Exception:
+            ref = None
+    if ref is None:
+        path = os.path.join(tmp(), f"f{file_sr}_{channels}_{n_frames}_{seed}.wav")
+        sf.write(path, data, file_sr, subtype="PCM_16")
+        ref = data / 32768.0
+        fmt, sub = "wav", "PCM_16"
+    c = _ctx.CURRENT
+    if c is not None:
+        c.note(f"file_container:{fmt}:{sub}")
+    _FILES[key] = (path, ref)
     return _FILES[key]
 
 
@@ -116,7 +149,7 @@ def _recording(path, file_sr, te, channels, n_frames):
     return data.Recording(uuid=uuid.UUID(int=42), path=path, duration=n_frames / real_sr, channels=channels, samplerate=real_sr, time_expansion=te)
 
 
-def judge_clip(ctx, file_sr, te, channels, n_frames, seed, start, end):
+def judge_clip(ctx, file_sr, te, channels, n_frames, seed, start, end, history=None):
     from soundevent import data
     from soundevent.audio import io as AIO
 
@@ -124,7 +157,10 @@ def judge_clip(ctx, file_sr, te, channels, n_frames, seed, start, end):
     path, adir = _split(path, seed)
     rec = _recording(path, file_sr, te, channels, n_frames)
     sr = rec.samplerate
-    spec = {"kind": "clip", "file_sr": file_sr, "te": te, "channels": channels, "n_frames": n_frames, "seed": seed, "start": start, "end": end}
+    spec = {"kind": "clip", "file_sr": file_sr, "te": te, "channels": channels, "n_frames": n_frames, "seed": seed, "start": start, "end": end,
+            "container": ":".join(container_of(seed))}
+    if history:
+        spec["history"] = history
     clip = data.Clip(uuid=uuid.UUID(int=43), recording=rec, start_time=start, end_time=end)
     ctx.mon("load_clip")
     try:
@@ -161,7 +197,7 @@ def judge_clip(ctx, file_sr, te, channels, n_frames, seed, start, end):
         want = np.zeros((m, channels))
         avail = max(0, min(m, n_frames - off))
         if avail > 0:
-            want[:avail] = written[off:off + avail] / 32768.0
+            want[:avail] = written[off:off + avail]
         if not np.array_equal(data_, want):
             bad = int(np.argwhere(data_ != want)[0][0])
             ctx.violate("load_clip:frames", "load_clip:frames", observed={"first_bad_frame": bad, "value": data_[bad].tolist()}, expected=want[bad].tolist(), spec=spec)
@@ -177,6 +213,21 @@ def judge_clip(ctx, file_sr, te, channels, n_frames, seed, start, end):
         st = wav.time.attrs.get("step")
         if st is not None and abs(st - 1 / sr) > 1e-15:
             ctx.violate("axis:step_value", "axis:step_value:load_clip", observed=st, expected=1 / sr, spec=spec)
+    if history is None and ctx.every(spec, 4):
+        # the caller owns the loaded array: it overwrites samples and coordinates in place, then loads the same clip,
+        # an overlapping clip and the whole recording again -- each judged against the file as before
+        keep = wav.copy(deep=True)
+        try:
+            acted = scribble.scribble(wav)
+        except Exception:
+            acted = 0
+        if acted:
+            ctx.mon("reload_after_result_edit")
+            h = "an earlier load of an overlapping clip was edited in place by the caller"
+            judge_clip(ctx, file_sr, te, channels, n_frames, seed, start, end, history=h)
+            judge_clip(ctx, file_sr, te, channels, n_frames, seed, start / 2, end, history=h)
+            judge_recording(ctx, file_sr, te, channels, n_frames, seed)
+        return keep
     return wav
 
 
@@ -194,7 +245,7 @@ def judge_recording(ctx, file_sr, te, channels, n_frames, seed):
         ctx.violate_exc("load_recording:raises", f"load_recording:raises:{type(e).__name__}", e, spec=spec)
         return None
     d = np.asarray(wav.data)
-    if d.shape != written.shape or not np.array_equal(d, written / 32768.0):
+    if d.shape != written.shape or not np.array_equal(d, written):
         ctx.violate("load_recording:frames", "load_recording:frames", observed=list(d.shape), expected=list(written.shape), spec=spec)
     check_axis(ctx, "time", wav.time.data, wav.time.attrs.get("step"), 0.0, spec, "load_recording")
     return wav
